@@ -173,6 +173,14 @@ def run(ctx):
         else:
             # any phase response: never_early_any_phase needs StageWF, the dft shape clauses and 0 <= b + margin per stage
             ctx.count("plans_nonlinear_phase_checked(never_early_any_phase)")
+            if t is not None and t.get("earlyg") == "1" and t.get("post") != "1" and not f1:
+                # total_exact_any_phase needs the post-context clause for these plans too; every plan of the real planner meets it
+                found = cr.find_eoi_overrun(exe, job["cfg"], job["env"])
+                ctx.violation(("C03 fails on the real code: %s" % found["what"] if found else "hypothesis of never_early_round_any_phase fails on a plan of the real planner")
+                              + " (post-context below half an output period: %s) (%s %s)" % (t, cr.create_line(job["cfg"]), job["env"]),
+                              {"cfg": job["cfg"], "env": job["env"], "plan": tr.plan, "time": t, "ops": found["ops"] if found else None}, no_input=not found)
+            elif t is not None and t.get("earlyg") == "1":
+                ctx.count("plans_nonlinear_phase_with_post_context(total_exact_any_phase applies)")
             if t is None or t.get("earlyg") != "1":
                 if f1:
                     ctx.count("plans_nonlinear_phase_with_F1_signature"); continue
